@@ -12,6 +12,7 @@
 -/
 import MosVerif.Util
 -- @component fallback MosVerif.Fallback.run
+-- @component fallbackseq MosVerif.Fallback.runSeq
 namespace MosVerif.Fallback
 
 /-- Outcome of one leg: an error, or a message (opaque identity `tag`, TC flag). -/
@@ -85,5 +86,21 @@ def run (case impl : String) : String × String :=
       | none => "unparsed"
     (m, v)
   | _, _, _ => ("bad-case", "na")
+
+/-! ### `fallbackseq`: k truncated UDP replies in a row on one upstream, healthy TCP server (which may close
+    the connection after each reply). Every step is `exchange q (msg _ true) (msg _ false)`, so every caller gets
+    the TCP reply (that the TCP leg survives the stale pooled connection is C14 `stale_then_healthy_succeeds`). -/
+def seqModel (k : Nat) : List Leg := (List.range k).map fun i => (exchange i (.msg (1000 + i) true) (.msg (2000 + i) false)).result
+
+def runSeq (case impl : String) : String × String :=
+  match kvNat (words case) "seq" with
+  | some k =>
+    let out := "res=" ++ ",".intercalate ((seqModel k).map fun l => match l with | .msg _ false => "ok" | .msg _ true => "tc" | .err => "err")
+    let v := if impl == "panic" then "viol:panic"
+      else match kvGet (words impl) "res" with
+        | some r => if (r.splitOn ",").all (· == "ok") ∧ (r.splitOn ",").length = k then "ok" else "viol"
+        | none => "unparsed"
+    (out, v)
+  | none => ("bad-case", "na")
 
 end MosVerif.Fallback
